@@ -17,7 +17,10 @@ class VariableBoundEqPropagator(VariableBoundPropagator):
         
         if self.is_const:
             # Domain of the target shrinks to be equal to eq_e
-            eq_v = int(self.eq_e.val())
+            eq_v = self.eq_e.val()
+            if eq_v is None:
+                return False
+            eq_v = int(eq_v)
             range_l = self.target.domain.range_l
             if len(range_l) >= 1:
                 if len(range_l) > 1 or not (range_l[0][0] == eq_v and range_l[0][1] == eq_v):
